@@ -332,6 +332,175 @@ def Msg.toVal : Msg → Val
 /-- the payload of the packet that carries a message -/
 def Msg.wire (m : Msg) : Except Err Bytes := specEnc m.toVal
 
+/-! ### per-handler argument layouts, reply shapes, the dumped-exception tuple -/
+
+/-- what may stand at one argument position of a request -/
+inductive Slot where
+  /-- the object operated on: any boxed value (a reference to an object of the receiver in practice) -/
+  | obj
+  /-- any boxed value -/
+  | any
+  /-- an attribute / method / comparison-method name: text by value (a byte string is accepted and decoded) -/
+  | name
+  /-- positional arguments: a tuple — by value as a whole, or boxed item by item -/
+  | args
+  /-- keyword arguments: a tuple of `(name, value)` pairs, names being text -/
+  | kwargs
+  /-- an integer by value -/
+  | count
+  /-- `(type name, class id, instance id)` by value; instance id 0 denotes a class -/
+  | idPack
+  deriving DecidableEq, Repr
+
+/-- handler number ↦ (required arguments, optional trailing arguments) -/
+def handlerArgs : List (Nat × List Slot × List Slot) :=
+  [(1, [.any], []),                                   -- ping(data)
+   (2, [], []),                                       -- close()
+   (3, [], []),                                       -- getroot()
+   (4, [.obj, .name], []),                            -- getattr(obj, name)
+   (5, [.obj, .name], []),                            -- delattr(obj, name)
+   (6, [.obj, .name, .any], []),                      -- setattr(obj, name, value)
+   (7, [.obj, .args], [.kwargs]),                     -- call(obj, args, kwargs=())
+   (8, [.obj, .name, .args], [.kwargs]),              -- callattr(obj, name, args, kwargs=())
+   (9, [.obj], []),                                   -- repr(obj)
+   (10, [.obj], []),                                  -- str(obj)
+   (11, [.obj, .any], [.name]),                       -- cmp(obj, other, op='__cmp__')
+   (12, [.obj], []),                                  -- hash(obj)
+   (13, [.obj], []),                                  -- dir(obj)
+   (14, [.obj, .count], []),                          -- pickle(obj, proto)
+   (15, [.obj], [.count]),                            -- del(obj, count=1)
+   (16, [.idPack], []),                               -- inspect(id_pack)
+   (17, [.obj, .count], []),                          -- buffiter(obj, count)
+   (18, [.obj, .name, .name, .any, .any, .args], []), -- oldslicing(obj, attempt, fallback, start, stop, args)
+   (19, [.obj, .any], []),                            -- ctxexit(obj, exc)
+   (20, [.obj, .idPack], [])]                         -- instancecheck(obj, other_id_pack)
+
+/-- handler number ↦ (number of required, number of optional arguments) -/
+def handlerArity : List (Nat × Nat × Nat) := handlerArgs.map (fun e => (e.1, e.2.1.length, e.2.2.length))
+
+def isText : Val → Bool
+  | .str _ => true
+  | .bytes _ => true
+  | _ => false
+
+/-- `(name, class id, instance id)` -/
+def isIdPack : Val → Bool
+  | .tuple [.str _, .int _, .int _] => true
+  | _ => false
+
+def isPairWithName : Val → Bool
+  | .tuple [.str _, _] => true
+  | _ => false
+
+/-- keyword arguments by value: a tuple of `(name, value)` pairs -/
+def isKwPairs : Val → Bool
+  | .tuple xs => xs.all isPairWithName
+  | _ => false
+
+def isBoxedKwPair : Boxed → Bool
+  | .value v => isPairWithName v
+  | .tuple [.value (.str _), _] => true
+  | _ => false
+
+def Slot.admits : Slot → Boxed → Bool
+  | .obj, _ => true
+  | .any, _ => true
+  | .name, .value v => isText v
+  | .count, .value (.int _) => true
+  | .idPack, .value v => isIdPack v
+  | .args, .value (.tuple _) => true
+  | .args, .tuple _ => true
+  | .kwargs, .value v => isKwPairs v
+  | .kwargs, .tuple bs => bs.all isBoxedKwPair
+  | _, _ => false
+
+/-- the argument list of a request: by value as one tuple, or boxed item by item -/
+def Boxed.slots : Boxed → Option (List Boxed)
+  | .value (.tuple vs) => some (vs.map Boxed.value)
+  | .tuple bs => some bs
+  | _ => none
+
+/-- all required positions present and admitted, then any prefix of the optional ones, nothing more -/
+def slotsConform : List Slot → List Slot → List Boxed → Bool
+  | [], [], bs => bs.isEmpty
+  | [], _ :: _, [] => true
+  | [], o :: os, b :: bs => o.admits b && slotsConform [] os bs
+  | _ :: _, _, [] => false
+  | r :: rs, os, b :: bs => r.admits b && slotsConform rs os bs
+
+/-- `(name, value)` pairs of a dumped exception's attributes -/
+def isAttrPairs : Val → Bool
+  | .tuple xs => xs.all isPairWithName
+  | _ => false
+
+/-- what vinegar writes for an exception: the marker `EXC_STOP_ITERATION`, a bare string (deprecated string
+exceptions), or `((module name, class name), args, ((attribute name, value), …), traceback text)` -/
+def isDumpedException : Val → Bool
+  | .int i => i == (EXC_STOP_ITERATION : Nat)
+  | .str _ => true
+  | .tuple [.tuple [.str _, .str _], .tuple _, attrs, .str _] => isAttrPairs attrs
+  | _ => false
+
+/-- does the message have the published layout below `(kind, seq, args)`: a request's arguments fit its
+handler's layout, an exception carries a dumped exception (a reply's shape depends on its request: `replyConforms`) -/
+def Msg.conforms : Msg → Bool
+  | .request _ h args =>
+    match handlerArgs.lookup h, args.slots with
+    | some (req, opt), some bs => slotsConform req opt bs
+    | _, _ => false
+  | .reply _ _ => true
+  | .exception _ d => isDumpedException d
+
+def isMethodEntry : Val → Bool
+  | .tuple [.str _, .str _] => true
+  | .tuple [.str _, .none] => true
+  | _ => false
+
+def isNameEntry : Val → Bool
+  | .str _ => true
+  | _ => false
+
+/-- shapes of the replies that are fixed by the handler -/
+inductive ReplyShape where
+  | text | int | bytes
+  /-- a tuple of names -/
+  | names
+  /-- a tuple of `(method name, docstring or None)` -/
+  | methods
+  /-- a tuple, by value or boxed item by item -/
+  | seq
+  deriving DecidableEq, Repr
+
+/-- repr/str: text; hash: an integer; dir: names; pickle: a byte string; inspect: the methods of the class;
+buffiter: the next items.  Every other handler's reply is whatever the operation returned. -/
+def replyShape : List (Nat × ReplyShape) :=
+  [(9, .text), (10, .text), (12, .int), (13, .names), (14, .bytes), (16, .methods), (17, .seq)]
+
+def ReplyShape.admits : ReplyShape → Boxed → Bool
+  | .text, .value (.str _) => true
+  | .int, .value (.int _) => true
+  | .bytes, .value (.bytes _) => true
+  | .names, .value (.tuple xs) => xs.all isNameEntry
+  | .methods, .value (.tuple xs) => xs.all isMethodEntry
+  | .seq, .value (.tuple _) => true
+  | .seq, .tuple _ => true
+  | _, _ => false
+
+def replyConforms (handler : Nat) (b : Boxed) : Bool :=
+  match replyShape.lookup handler with
+  | none => true
+  | some sh => sh.admits b
+
+/-- which handler(s) each operation on a proxy / connection issues, in order (the published meaning of the
+operations of the 5.x client side; `root` also inspects the class of the object it receives, `buffiter` first asks
+for an iterator and stops at the first empty chunk) -/
+def operationHandlers : List (String × List Nat) :=
+  [("root", [3, 16]), ("ping", [1]), ("getattr", [4]), ("setattr", [6]), ("delattr", [5]), ("call", [7]),
+   ("call-kw", [7]), ("callattr-special", [8]), ("callattr-kw", [8]), ("cmp-eq", [11]), ("cmp-lt", [11]),
+   ("hash", [12]), ("str", [10]), ("repr", [9]), ("dir", [13]), ("ctxexit", [19]), ("pickle", [14]),
+   ("oldslicing", [18]), ("buffiter", [8, 17, 17]), ("class-proxy", [16]), ("instancecheck", [20]),
+   ("del-class", [15]), ("call-with-object", [7]), ("del", [15]), ("close", [2])]
+
 /-! ### reading a received value back as a message (what a receiver does with the decoded payload) -/
 
 mutual
